@@ -91,6 +91,17 @@ pub mod search; // Public for benchmarking
 mod identify;
 mod symmetrize;
 
+/// Verification hooks: re-exports of crate-private items (compiled only with `--features verif`).
+#[cfg(feature = "verif")]
+pub mod verif {
+    pub use crate::base::verif_exports as base;
+    pub use crate::data::verif_exports as data;
+    pub use crate::identify::verif_exports as identify;
+    pub use crate::math::verif_exports as math;
+    pub use crate::search::verif_exports as search;
+    pub use crate::symmetrize::verif_exports as symmetrize;
+}
+
 use crate::base::{
     AngleTolerance, Cell, MagneticCell, MagneticMoment, MagneticOperations, MoyoError, Operations,
     OriginShift, RotationMagneticMomentAction,
